@@ -209,15 +209,20 @@ def run_sharded(binary, casefile_lines, tag, timeout=1200, env=None):
     if env:
         e.update(env)
     for i, s in enumerate(shards):
-        p = os.path.join(WORK, "%s.%d.cases" % (tag, i))
+        p = os.path.join(WORK, "%s.%d.%d.cases" % (tag, os.getpid(), i))
         with open(p, "w") as f:
             f.write("\n".join(s) + "\n")
         procs.append(subprocess.Popen(["timeout", str(timeout), binary, p], stdout=subprocess.PIPE,
                                       stderr=subprocess.DEVNULL, text=True, env=e))
     out = {}
     fails = []
+    paths = [os.path.join(WORK, "%s.%d.%d.cases" % (tag, os.getpid(), i)) for i in range(len(shards))]
     for i, p in enumerate(procs):
         o, _ = p.communicate()
+        try:
+            os.remove(paths[i])
+        except OSError:
+            pass
         if p.returncode != 0:
             fails.append((i, p.returncode))
         for line in o.splitlines():
